@@ -76,7 +76,17 @@ inductive Op
   | appendRep (r : Nat) (fld : String) (kvs : List (String × V))          -- rec.fld.append(component)
   | assignComp (r : Nat) (fld : String) (kvs : List (String × V))         -- rec.fld = component
   | assignNone (r : Nat) (fld : String)                                   -- rec.fld = None
+  /-- list surgery on the occurrences of a repeated field: `rec.fld.insert(i, c)`, `del rec.fld[i]`,
+      `rec.fld.pop(i)`, `rec.fld[i] = c`, `rec.fld.extend([c, ...])`, `rec.fld += [...]`, `rec.fld *= n`:
+      the new occurrence list is picked from the present occurrences (`inl i`) and the newly given ones (`inr k`) -/
+  | relist (r : Nat) (fld : String) (news : List (List (String × V))) (sel : List (Nat ⊕ Nat))
   deriving Repr
+
+/-- the occurrence ids selected by a list surgery (selectors out of range select nothing) -/
+def pick (old new : List Nat) : List (Nat ⊕ Nat) → List Nat
+  | [] => []
+  | .inl i :: rest => (match old[i]? with | some id => [id] | none => []) ++ pick old new rest
+  | .inr k :: rest => (match new[k]? with | some id => [id] | none => []) ++ pick old new rest
 
 def setKv (kvs : List (String × V)) (k : String) (v : V) : List (String × V) :=
   kvs.map fun kv => if kv.1 = k then (k, v) else kv
@@ -121,6 +131,13 @@ def step (W : World) : Op → World
     | some rec =>
       { W with recs := W.recs.set r (rec.map fun kv => if kv.1 = fld then (fld, Slot.scalar none) else kv) }
     | none => W
+  | .relist r fld news sel => match slotOf W r fld with
+    | some (.rep lid) => match W.heap[lid]? with
+      | some (.list ids) =>
+        let (W1, nids) := allocComps W news
+        { W1 with heap := W1.heap.set lid (.list (pick ids nids sel)) }
+      | _ => W
+    | _ => W
 
 def run (W : World) (ops : List Op) : World := ops.foldl step W
 
